@@ -78,6 +78,7 @@ class Check:
         parser.add_argument("--budget", type=float, default=None, help="wall seconds")
         args = parser.parse_args(list(argv) if argv is not None else [])
 
+        env.use_private_tmp()
         self.property_id = property_id
         self.level = level
         self.rule = rule
@@ -358,6 +359,23 @@ class Check:
         return rc
 
 
+def normalize_message(text: str, limit: int = 80) -> str:
+    """Abstract quoted names, reprs and numbers away from a message."""
+    import re
+
+    text = re.sub(r"'[^']*'", "Q", text)
+    text = re.sub(r'"[^"]*"', "Q", text)
+    text = re.sub(r"<[^<>]* at 0x[0-9a-fA-F]+>", "OBJ", text)
+    text = re.sub(r"0x[0-9a-fA-F]+", "HEX", text)
+    text = re.sub(r"[0-9]+", "N", text)
+    text = text[:limit]
+    # a quote cut in half by the limit would make keys unstable
+    for quote in ("'", '"'):
+        if text.count(quote) % 2 == 1:
+            text = text[: text.rindex(quote)]
+    return text.strip()
+
+
 def crash_signature(exc: BaseException, repo_root: str = str(env.REPO)) -> str:
     """Mechanism key of an escaped exception: class + innermost repo function."""
     tb = traceback.extract_tb(exc.__traceback__)
@@ -372,19 +390,15 @@ def crash_signature(exc: BaseException, repo_root: str = str(env.REPO)) -> str:
         rel = inner.filename.split("/aas_core_codegen/", 1)[1]
         where = f"{rel}:{inner.name}"
     head = ""
-    if cls in ("ViolationError", "AssertionError"):
+    if cls in ("ViolationError", "AssertionError", "NotImplementedError", "ValueError", "KeyError"):
         # First line of the contract/assertion text distinguishes contracts of
-        # the same function; strip values.
-        text = str(exc).strip().splitlines()
-        if text:
-            head = text[0].strip()[:80]
-            if cls == "ViolationError":
-                # icontract: "File ..., line N in <module>:\n<condition>: ..."
-                for line in str(exc).splitlines():
-                    line = line.strip()
-                    if line and not line.startswith("File "):
-                        head = line[:80]
-                        break
+        # the same function; values (quoted names, numbers) are abstracted away.
+        lines = [line.strip() for line in str(exc).strip().splitlines() if line.strip()]
+        if cls == "ViolationError":
+            # icontract: "File ..., line N in <module>:\n<condition>: ..."
+            lines = [line for line in lines if not line.startswith("File ")]
+        if lines:
+            head = normalize_message(lines[0])
     key = f"{cls}@{where}"
     if head:
         key += f"|{head}"
